@@ -90,17 +90,19 @@ def rand_system(rng):
     mb_via = rng.choice(['ma', 'main']) if use_mb else None
     mods = {}
 
-    def mk_module(name, imported_atoms, tmpls=()):
+    def mk_module(name, imported_atoms, tmpls=(), taken=()):
         terms = [tok(t) for t, _ in TERMS[name]]
-        pool = RULEPOOL[name][:]
+        pool = [n for n in RULEPOOL[name] if n not in taken]       # a module does not define what it imports under the same name
         if name != 'main':
             rng.shuffle(pool)
-        names = pool[:rng.choice([2, 3])] if name != 'main' else ['start'] + rng.sample(pool[1:], rng.choice([0, 1, 2]))
+        names = pool[:rng.choice([2, 3])] if name != 'main' else ['start'] + rng.sample(pool[1:], min(len(pool) - 1, rng.choice([0, 1, 2])))
         rules = []
         for i, n in enumerate(names):
             later = [E.ref(x) for x in names[i + 1:]]          # references only to later rules: no recursion, no cycles
             atoms = terms + terms + later + imported_atoms
             alts = [{'alias': rng.choice(['', '', 'al_' + n]) if n != 'start' else '', 'body': rand_body(rng, atoms, 2, tmpls)} for _ in range(rng.choice([1, 1, 2]))]
+            if len(alts) == 2 and json.dumps(alts[0]['body'], sort_keys=True) == json.dumps(alts[1]['body'], sort_keys=True):
+                alts = alts[:1]                            # "Rules defined twice" is not what this family is about
             rules.append({'name': n, 'expand1': rng.random() < 0.15 and n != 'start', 'keepall': False, 'inline': False, 'prio': 0, 'params': [], 'alts': alts})
         return rules, names
 
@@ -123,18 +125,40 @@ def rand_system(rng):
         st = mk_import('mb', nb, TERMS['mb'])
         ima.append(st)
         atoms_a = [(tok(n['as']) if n['name'].isupper() else E.ref(n['as'])) for n in st['names']]
-    ra, na = mk_module('ma', atoms_a)
+    ma_t = rng.random() < 0.45          # ma defines a template; its parameters are named like rules of main (and of ma)
+    ra, na = mk_module('ma', atoms_a, [('lst', 2)] if ma_t else (), taken={n['as'] for st in ima for n in st['names']})
+    if ma_t:
+        ra.append({'name': 'lst', 'expand1': False, 'keepall': False, 'inline': False, 'prio': 0, 'params': ['start', 'w'],
+                   # ^ names of rules of main, not of ma (a parameter may not be named like a rule of its own module)
+                   'alts': [{'alias': '', 'body': E.seq([E.ref('start'), E.rep(E.seq([E.ref('w'), E.ref('start')]), 0, 2)])}]})
+        if not any('"tmpl"' in json.dumps(r) for r in ra[:-1]):
+            ra[0]['alts'][0]['body'] = E.seq([ra[0]['alts'][0]['body'], tmpl('lst', [tok('P'), tok('Q')])])
     mods['ma'] = {'rules': ra, 'imports': ima, 'changes': []}
     imain = [mk_import('ma', na, TERMS['ma'])]
+    timport = None
+    if ma_t and rng.random() < 0.6:        # main imports the template itself, by name or renamed
+        if imain[0]['style'] == 'multi':
+            imain[0]['names'].append({'name': 'lst', 'as': 'lst'})
+            timport = 'lst'
+        else:
+            imain[0] = {'from': 'ma', 'names': [{'name': 'lst', 'as': 'lstr'}], 'style': 'single-alias'}
+            timport = 'lstr'
     if use_mb and mb_via == 'main':
-        imain.append(mk_import('mb', nb, TERMS['mb']))
+        st2 = mk_import('mb', nb, TERMS['mb'])
+        seen = {n['as'] for n in imain[0]['names']}
+        st2['names'] = [n for n in st2['names'] if n['as'] not in seen]      # one local name, one definition
+        if not st2['names']:
+            st2 = {'from': 'mb', 'names': [{'name': nb[0], 'as': nb[0] + 'b'}], 'style': 'single-alias'}
+        imain.append(st2)
     atoms_m = []
     for st in imain:
-        atoms_m += [(tok(n['as']) if n['name'].isupper() else E.ref(n['as'])) for n in st['names']]
-    tmpls = []
+        atoms_m += [(tok(n['as']) if n['name'].isupper() else E.ref(n['as'])) for n in st['names'] if n['name'] != 'lst']
+    tmpls = [(timport, 2)] if timport else []
+    if not atoms_m:
+        atoms_m = [tmpl(timport, [tok('A'), tok('B')])]
     trules = []
     if rng.random() < 0.5:
-        tmpls = [('sep', 2)]
+        tmpls = tmpls + [('sep', 2)]
         trules.append({'name': 'sep', 'expand1': False, 'keepall': False, 'inline': False, 'prio': 0, 'params': ['tx', 'ts'],
                        'alts': [{'alias': '', 'body': E.seq([E.ref('tx'), E.rep(E.seq([E.ref('ts'), E.ref('tx')]), 0, -1)])}]})
     rm, nm = mk_module('main', atoms_m + atoms_m, tmpls)
@@ -158,7 +182,7 @@ def rand_system(rng):
         for a in r['alts']:
             a['body'] = scrub(a['body'])
     changes = []
-    imported_rules = [n['as'] for st in imain for n in st['names'] if not n['name'].isupper()]
+    imported_rules = [n['as'] for st in imain for n in st['names'] if not n['name'].isupper() and n['name'] != 'lst']
     if imported_rules and rng.random() < 0.5:
         target = rng.choice(imported_rules)
         body = rand_body(rng, [tok('A'), tok('B')], 1)
@@ -262,6 +286,7 @@ def observe_case(spec):
             except GrammarError as e:
                 if parser == 'earley':
                     case['skip'] = 'GrammarError: ' + str(e)[:120]
+                    case['rejected_by_lark'] = str(e)[:300]
                     return case
             except Exception as e:
                 if parser == 'earley':
@@ -327,6 +352,16 @@ def sample_inputs(system, rng):
                     return m2, r
         return mod, None
 
+    def find_tmpl(mod, name):
+        for r in mods[mod]['rules']:
+            if r['name'] == name and r['params']:
+                return mod, r
+        for st in mods[mod]['imports']:
+            for n in st['names']:
+                if n['as'] == name:
+                    return find_tmpl(st['from'], n['name'])
+        raise StopIteration
+
     def term_of(mod, name):
         if any(t == name for t, _ in TERMS[mod]):
             return (mod, name)
@@ -354,9 +389,10 @@ def sample_inputs(system, rng):
                 raise RecursionError
             return gen(m2, rng.choice(r['alts'])['body'], {}, depth + 1)
         if k == 'tmpl':
-            tr = next(r for r in mods[mod]['rules'] if r['name'] == e['name'])
-            env2 = {p: (mod, a) for p, a in zip(tr['params'], e['args'])}
-            return gen(mod, rng.choice(tr['alts'])['body'], env2, depth + 1)
+            tmod, tr = find_tmpl(mod, e['name'])
+            # arguments are resolved where the template is used (through the caller's environment first)
+            env2 = {p: (env[a['name']] if a['k'] in ('tok', 'rule') and a['name'] in env else (mod, a)) for p, a in zip(tr['params'], e['args'])}
+            return gen(tmod, rng.choice(tr['alts'])['body'], env2, depth + 1)
         if k == 'seq':
             out = []
             for x in e['items']:
@@ -437,6 +473,13 @@ def body(tier, seed, replay):
         cases = C.pmap(observe_case, specs(tier, rng))
         for c in cases:
             ev.count('skipped:' + c['skip'].split(':')[0] if c['skip'] else 'module_systems')
+        for c in cases:
+            # the family is collision-free by construction (no name defined twice, no parameter named like a rule of its own
+            # module): the written-out grammar loads, so must the module system
+            # ("Rules defined twice": colliding expansions of optionals, e.g. '[B?] P' - rejected in the written-out grammar too)
+            if c.get('rejected_by_lark') and not c['rejected_by_lark'].startswith('Rules defined twice'):
+                rep.violation({'property': PID, 'clause': 'module-system-rejected:' + ' '.join(c['rejected_by_lark'].split()[:3]),
+                               'modules': c['texts'], 'error': c['rejected_by_lark'], 'spec': dict(c['spec'], inputs=[])})
         cases = [c for c in cases if not c['skip']]
         for c in cases:
             st = c['spec']['system']
